@@ -99,6 +99,12 @@ def run_case(case):
                                "values": [SC.q(sim["T"])]})
     tr = SC.traced_run(model, harg, exact, sim["np_seed"], iterations=2, max_steps=case.get("max_steps", SC.MAX_STEPS))
     shape = "nS=%s,nE=%s" % ("1" if nS == 1 else "n", "1" if nE == 1 else "n")
+    if tr.error is not None and SC.unbounded_adaptive_tau(tr, sim):
+        viol.append({"what": "solve_stochast raised ValueError('lam value too large'): the adaptive tau of a state where no propensity "
+                             "changes appreciably is astronomically large and rate*tau overflows the Poisson sampler",
+                     "signature": "C04:raise:ValueError:tau_adaptive:lam-too-large:tau>1e15",
+                     "detail": "x0=%s params=%s T=%r" % (case["x0"], case["params"], sim["T"])})
+        return {"nontrivial": False, "mismatches": mism, "violations": viol, "tags": tags + ["raised:unbounded-adaptive-tau"]}
     if tr.error is not None:
         viol.append({"what": "solve_stochast raised %s: %s" % (type(tr.error).__name__, str(tr.error)[:200]),
                      "signature": "C04:raise:%s:%s:%s" % (type(tr.error).__name__, sim["mode"].split("_")[0], shape),
